@@ -7,6 +7,7 @@ from sa import excs as X
 from sa import paths as P
 from sa import optional as OPT
 from sa import speccov as SC
+from sa import agree as G
 
 
 def _t(rule_fn, **kw):
@@ -32,13 +33,13 @@ A_AST = "CPython's ast module parses /repo exactly as the interpreter does"
 FLOORS = {
     "T0": 300, "T1": 30, "T3a": 100, "T3b": 40, "T3c": 30, "T3d": 8, "T3e": 5, "T3f": 6,
     "T3g": 40, "T3a-req": 40, "T4a": 50, "T4b": 5, "T4c": 50, "T4d": 50, "T4e": 3, "T4f": 8,
-    "T4g": 10, "T5": 8,
+    "T4g": 10, "T5": 8, "T3h": 50,
     # effect / ownership rules (write sites confirmed by reading conducting.py / machines.py)
     "F1": 10, "F2": 10, "F3": 10, "F4": 8, "F5": 25, "F6": 3, "F7": 2, "F8": 8, "O1": 30,
     "O2": 6, "O3": 20, "S1": 20,
     "X1": 5, "X2": 40, "X3": 6,
     "P1": 5, "P2": 5, "P3": 5, "P4": 2, "P5": 3, "P6": 9, "P7": 5,
-    "E7": 30, "U1": 5, "S2": 12, "S3": 15,
+    "E7": 30, "U1": 5, "S2": 12, "S3": 15, "G1": 6, "S1b": 6, "M1": 2,
 }
 
 PROPERTIES = {}
@@ -54,7 +55,8 @@ prop(
     "C02",
     anchor_modules=TABLE_MODS,
     rules=[_t(T.rule_T0), _t(T.rule_T1), _t(T.rule_T3a), _t(T.rule_T3c), _t(T.rule_T3d),
-           _t(T.rule_T3e), _t(T.rule_T3g), _t(T.rule_T3a_req), _t(T.rule_T5)],
+           _t(T.rule_T3e), _t(T.rule_T3g), _t(T.rule_T3a_req), _t(T.rule_T5), _t(T.rule_T4a),
+           E.rule_F4, X.rule_X3],
     controls=[K.ctl_wf_inflight_to_resting, K.ctl_wf_drop_failed_cell],
     exhaustive=True,
     explanation=(
@@ -75,7 +77,7 @@ prop(
     "C03",
     anchor_modules=TABLE_MODS,
     rules=[_t(T.rule_T0), _t(T.rule_T1), _t(T.rule_T3b), _t(T.rule_T3c), _t(T.rule_T3f),
-           _t(T.rule_T4g), _t(T.rule_T4d)],
+           _t(T.rule_T3g), _t(T.rule_T4g), _t(T.rule_T4d), P.rule_P1, P.rule_P2, G.rule_G1],
     controls=[K.ctl_wf_drop_dormant_cell],
     exhaustive=True,
     explanation=(
@@ -96,7 +98,8 @@ prop(
     rules=[_t(T.rule_T3a, rows=("pausing", "paused")), _t(T.rule_T3b, rows=("pausing",)),
            _t(T.rule_T3c, rows=("pausing", "paused")), _t(T.rule_T3d, rows=("pausing", "paused")),
            _t(T.rule_T3g, rows=("running", "pausing", "paused", "resuming")),
-           _t(T.rule_T3f), _t(T.rule_T4f)],
+           _t(T.rule_T3h, rows=("pausing",)), _t(T.rule_T3e),
+           _t(T.rule_T3f), _t(T.rule_T4f), _t(T.rule_T4a), P.rule_P2, E.rule_F7],
     controls=[K.ctl_wf_drop_failed_cell],
     exhaustive=True,
     explanation=(
@@ -115,7 +118,8 @@ prop(
     anchor_modules=TABLE_MODS,
     rules=[_t(T.rule_T3a, rows=("canceling",)), _t(T.rule_T3b, rows=("canceling",)),
            _t(T.rule_T3c, rows=("canceling",)), _t(T.rule_T3e), _t(T.rule_T3f),
-           _t(T.rule_T3g), _t(T.rule_T4a), _t(T.rule_T4f)],
+           _t(T.rule_T3g), _t(T.rule_T3h, rows=("canceling",)), _t(T.rule_T4a), _t(T.rule_T4f),
+           P.rule_P2],
     controls=[K.ctl_wf_canceling_to_succeeded],
     exhaustive=True,
     explanation=(
@@ -133,7 +137,7 @@ prop(
     "C12",
     anchor_modules=TABLE_MODS,
     rules=[_t(T.rule_T4a), _t(T.rule_T4b), _t(T.rule_T4c), _t(T.rule_T4d), _t(T.rule_T4f),
-           _t(T.rule_T4g)],
+           _t(T.rule_T4g), G.rule_G1],
     controls=[K.ctl_task_active_completes],
     exhaustive=True,
     explanation=(
@@ -165,7 +169,7 @@ A_ABS = ("the abstract interpretation (sa.absint) over-approximates aliasing: on
 prop(
     "C04",
     anchor_modules=TABLE_MODS,
-    rules=[_t(T.rule_T0), _t(T.rule_T1), _t(T.rule_T3f), E.rule_F4, E.rule_F6],
+    rules=[_t(T.rule_T0), _t(T.rule_T1), _t(T.rule_T3f), E.rule_F4, E.rule_F6, P.rule_P2],
     controls=[K.ctl_unvalidated_status_write, K.ctl_rerun_write_before_reject],
     explanation=(
         "Decides the structural clauses of 'terminal statuses are final': the terminal rows of "
@@ -184,7 +188,7 @@ prop(
 prop(
     "C05",
     anchor_modules=ENGINE_MODS + ["graphing"],
-    rules=[E.rule_S1, E.rule_O1, E.rule_O3, E.rule_F5, E.rule_F8],
+    rules=[E.rule_S1, G.rule_S1b, E.rule_O1, E.rule_O3, E.rule_F5, E.rule_F8],
     controls=[K.ctl_share_record_lists, K.ctl_serialize_no_copy, K.ctl_drop_restore_of_attr],
     explanation=(
         "Decides the structural core of 'persist/restore is unobservable': every attribute of "
@@ -203,7 +207,7 @@ prop(
 prop(
     "C06",
     anchor_modules=ENGINE_MODS,
-    rules=[E.rule_O2, E.rule_F2],
+    rules=[E.rule_O2, E.rule_F2, G.rule_M1],
     controls=[K.ctl_drop_ctx_copy],
     explanation=(
         "Decides one clause: isolation of the context store. A stored context delta is never "
@@ -342,7 +346,7 @@ prop(
 prop(
     "C17",
     anchor_modules=ENGINE_MODS,
-    rules=[_f6_rerun, _e7_rerun, E.rule_F4],
+    rules=[_f6_rerun, _e7_rerun, E.rule_F4, G.rule_G1],
     controls=[K.ctl_rerun_write_before_reject, K.ctl_unguarded_staged_deref],
     explanation=(
         "Decides the structural clauses of rerun: the two rejections of request_workflow_rerun "
